@@ -66,21 +66,19 @@ impl Typstyle {
             .nest(indent as isize)
             .pretty(self.config.max_width)
             .to_string();
-        // Inside code the node may touch a word (`if(x) => y`, `(a)in b`). When the formatted
-        // text starts or ends with a word as well, keep the two apart.
-        if !matches!(
-            node.parent_kind(),
-            None | Some(SyntaxKind::Markup | SyntaxKind::Math)
-        ) {
-            let text = source.text();
-            let before = text[..node.range().start].chars().next_back();
-            let after = text[node.range().end..].chars().next();
-            if before.is_some_and(is_id_continue) && res.starts_with(is_id_continue) {
-                res.insert(0, ' ');
-            }
-            if after.is_some_and(is_id_continue) && res.ends_with(is_id_continue) {
-                res.push(' ');
-            }
+        // The node may touch a keyword (`if(x) => y`, `(a)in b`). When the formatted text
+        // starts or ends with a word as well, keep the two apart.
+        let node_range = node.range();
+        let touches_keyword = |leaf: Option<LinkedNode>, at: usize| {
+            leaf.is_some_and(|leaf| {
+                leaf.kind().is_keyword() && (leaf.range().start == at || leaf.range().end == at)
+            })
+        };
+        if touches_keyword(node.prev_leaf(), node_range.start) && res.starts_with(is_id_continue) {
+            res.insert(0, ' ');
+        }
+        if touches_keyword(node.next_leaf(), node_range.end) && res.ends_with(is_id_continue) {
+            res.push(' ');
         }
         #[cfg(typstyle_verif)]
         crate::verif_hooks::point(crate::verif_hooks::Point::RangeExit);
